@@ -29,9 +29,9 @@ impl ResponseOutputFormat {
             }
             ResponseOutputFormat::Csv { mapping, sorted } => {
                 let header = if *sorted {
-                    mapping.keys().sorted().join(",")
+                    mapping.keys().sorted().map(|k| csv_field(k)).join(",")
                 } else {
-                    mapping.keys().rev().join(",")
+                    mapping.keys().rev().map(|k| csv_field(k)).join(",")
                 };
                 Some(format!("{}\n", header))
             }
@@ -65,7 +65,7 @@ impl ResponseOutputFormat {
                         .iter()
                         .sorted_by_key(|(k, _)| *k)
                         .map(|(k, v)| match v.apply_mapping(response) {
-                            Ok(cell) => cell.to_string(),
+                            Ok(cell) => csv_field(&cell.to_string()),
                             Err(msg) => {
                                 errors.insert(k.clone(), msg);
                                 String::from("")
@@ -77,7 +77,7 @@ impl ResponseOutputFormat {
                         .iter()
                         .rev()
                         .map(|(k, v)| match v.apply_mapping(response) {
-                            Ok(cell) => cell.to_string(),
+                            Ok(cell) => csv_field(&cell.to_string()),
                             Err(msg) => {
                                 errors.insert(k.clone(), msg);
                                 String::from("")
@@ -110,5 +110,16 @@ impl ResponseOutputFormat {
                 sorted: _,
             } => Some(String::from("\n")),
         }
+    }
+}
+
+/// writes one CSV field as RFC 4180 asks: text holding a comma, a double quote or a line
+/// break is wrapped in double quotes with its inner quotes doubled, anything else is
+/// written as it is.
+fn csv_field(text: &str) -> String {
+    if text.contains([',', '"', '\n', '\r']) {
+        format!("\"{}\"", text.replace('"', "\"\""))
+    } else {
+        String::from(text)
     }
 }
